@@ -1300,6 +1300,13 @@ func (l *Loop) decode(d *decoder) {
 		l.vertices[i].Y = d.readFloat64()
 		l.vertices[i].Z = d.readFloat64()
 	}
+	if d.err != nil {
+		return
+	}
+	if i := firstNonFinitePoint(l.vertices); i >= 0 {
+		d.err = fmt.Errorf("vertex %d has a NaN or infinite coordinate", i)
+		return
+	}
 	l.index = NewShapeIndex()
 	l.originInside = d.readBool()
 	l.depth = int(d.readUint32())
@@ -1307,6 +1314,18 @@ func (l *Loop) decode(d *decoder) {
 	l.subregionBound = ExpandForSubregions(l.bound)
 
 	l.index.Add(l)
+}
+
+// firstNonFinitePoint returns the index of the first point that has a NaN or
+// infinite coordinate, or -1 if there is none. The exact predicates cannot
+// represent such values, so decoded geometry must not contain them.
+func firstNonFinitePoint(pts []Point) int {
+	for i, p := range pts {
+		if math.IsNaN(p.X+p.Y+p.Z) || math.IsInf(p.X, 0) || math.IsInf(p.Y, 0) || math.IsInf(p.Z, 0) {
+			return i
+		}
+	}
+	return -1
 }
 
 // Bitmasks to read from properties.
@@ -1381,6 +1400,10 @@ func (l *Loop) decodeCompressed(d *decoder, snapLevel int) {
 
 	// Make sure values are valid before using.
 	if d.err != nil {
+		return
+	}
+	if i := firstNonFinitePoint(l.vertices); i >= 0 {
+		d.err = fmt.Errorf("vertex %d has a NaN or infinite coordinate", i)
 		return
 	}
 
